@@ -23,6 +23,7 @@ import (
 	"github.com/hashicorp/hcl/v2"
 	"github.com/hashicorp/hcl/v2/hclsyntax"
 	"github.com/zclconf/go-cty/cty"
+	"github.com/zclconf/go-cty/cty/function"
 )
 
 func valueFocusSchema() *schema.BodySchema {
@@ -76,6 +77,10 @@ func valueFocusSchema() *schema.BodySchema {
 		"oo_ref": {IsOptional: true, Constraint: schema.OneOf{schema.Reference{OfScopeId: "variable"}, kw, schema.AnyExpression{OfType: cty.Bool}}},
 		"ref":    {IsOptional: true, Constraint: schema.Reference{OfScopeId: "variable"}},
 		"td":     {IsOptional: true, Constraint: schema.TypeDeclaration{}},
+		// string-typed attributes with a registered completion hook (at the top level and, through [inner], in a body
+		// the library derives by copying and merging)
+		"hk":  {IsOptional: true, Constraint: schema.LiteralType{Type: cty.String}, CompletionHooks: lang.CompletionHooks{{Name: "hook1"}}},
+		"hka": {IsOptional: true, Constraint: schema.AnyExpression{OfType: cty.String}, CompletionHooks: lang.CompletionHooks{{Name: "hook1"}}},
 	}
 	base := tfSchema()
 	return &schema.BodySchema{Attributes: attrs, Blocks: map[string]*schema.BlockSchema{
@@ -102,11 +107,11 @@ var valueFocusTexts = map[string][]string{
 		" { list = [inh, ign, i] }", " { x = t }", " { x = true, y }", " { a = \"s\", b = f }", " { a = \"s\"\n  \n}", " {\n  second = inherit\n  \n  third = true\n}",
 		" { first = \"x\", \"sec", " { \"first\" = }", " { first = \"x\"  ,  }"},
 	"expr": {" tr", " true", " !tr", " !tru.", " tr && fa", " tr &&", " (tr)", " (tr", " \"${tr}\"", " \"a${tr}b\"", " \"${tr", " tr ? fa : tr", " x ? tr", " x ? tr : ", " [for k, v in tr : fa if tr]",
-		" {for k, v in tr : k => fa}", " var.v", " var.", " tags[]", " tags[tr]", " tags[\"x\"]", " f1(tr)", " null", " 42", " \"lit\"", " <<EOT\n${tr}\nEOT", " -1", " 1 + tr", " tr == fa", " x[tr].y", " x.*.y"},
+		" {for k, v in tr : k => fa}", " var.v", " var.", " tags[]", " tags[tr]", " tags[\"x\"]", " f1(tr)", " f1(tr, )", " f1(tr,", " f1(", " f1( )", " fv2(\"a\", tr, fa)", " f0(tr)", " unknownfn(tr)", " f1(var.)", " f2(tr", " f1(f2(tr), t)", " f", " f1", " fb(tr)", " fb(tr, [tr, ])", " fb(true, [], fa", " fb(true, [], false, t)", " fb(, tr)", " fb(tr,\n  [f],\n  t\n)", " fo({ x = t })", " fo({ })", " fb(tr).", " fb(var.v.)", " null", " 42", " \"lit\"", " <<EOT\n${tr}\nEOT", " -1", " 1 + tr", " tr == fa", " x[tr].y", " x.*.y"},
 }
 
 var valueFocusFamilies = map[string][]string{
-	"td": {"typedecl"},
+	"td": {"typedecl"}, "hk": {"scalar"}, "hka": {"scalar"},
 	"kw": {"scalar"}, "l_kw": {"list", "scalar"}, "s_lt": {"list", "scalar"}, "l_none": {"list"}, "t_mix": {"tuple", "scalar"}, "m_num": {"map", "scalar"}, "m_ikw": {"map"},
 	"o_plain": {"object", "scalar"}, "o_interp": {"object"}, "o_nested": {"object"},
 	"a_str": {"expr", "scalar"}, "a_bool": {"expr", "scalar"}, "a_num": {"expr"}, "a_dyn": {"expr", "list", "object"}, "a_list": {"list", "expr"}, "a_set": {"list"},
@@ -147,9 +152,18 @@ func valueFocusSpecs() []valueFocusSpec {
 
 var valueFocusSchemaShared = valueFocusSchema()
 
+// the function table of the family: the generic one plus functions with boolean and collection parameters
+func valueFocusFunctions() map[string]schema.FunctionSignature {
+	fs := genFunctions(nil)
+	vb := function.Parameter{Name: "more", Type: cty.Bool}
+	fs["fb"] = schema.FunctionSignature{ReturnType: cty.Bool, Params: []function.Parameter{{Name: "flag", Type: cty.Bool}, {Name: "flags", Type: cty.List(cty.Bool)}}, VarParam: &vb}
+	fs["fo"] = schema.FunctionSignature{ReturnType: cty.String, Params: []function.Parameter{{Name: "o", Type: cty.Object(map[string]cty.Type{"x": cty.Bool})}}}
+	return fs
+}
+
 func (sp valueFocusSpec) scenario() *Scenario {
 	w := newWorld()
-	pd := w.AddPath("root", valueFocusSchemaShared, map[string]string{"main.tf": sp.src}, genFunctions(nil))
+	pd := w.AddPath("root", valueFocusSchemaShared, map[string]string{"main.tf": sp.src}, valueFocusFunctions())
 	s := &Scenario{W: w, Main: pd, File: "main.tf", Src: []byte(sp.src), Kind: sp.kind}
 	for off := sp.from; off <= len(sp.src); off++ {
 		s.Offsets = append(s.Offsets, off)
@@ -196,6 +210,8 @@ func emptyExprRanges(b *hclsyntax.Body, out *List) {
 // wfcCheck: what the theorem on edit ranges (Proofs/ValueCandsProofs.v, wfc) assumes of the parser's tree: a
 // traversal's range covers its root name and starts where its root step starts, a boolean literal's range covers
 // its text, an object item's key ends no later than its value.  Returns the number of nodes checked and the failures.
+var malformedParserRanges int
+
 func wfcCheck(b *hclsyntax.Body, fails *[]string) int {
 	n := 0
 	for _, name := range sortedKeys(b.Attributes) {
@@ -217,6 +233,15 @@ func wfcCheck(b *hclsyntax.Body, fails *[]string) int {
 					if r := x.Range(); r.End.Byte-r.Start.Byte < len(text) {
 						*fails = append(*fails, fmt.Sprintf("boolean literal %v", r))
 					}
+				}
+			case *hclsyntax.FunctionCallExpr:
+				n++
+				if r := x.Range(); r.End.Byte < r.Start.Byte {
+					// an unterminated call at the end of the file: the parser's own range is malformed (open finding of C02,
+					// parser-supplied-range-malformed); outside the theorem's hypothesis, counted
+					malformedParserRanges++
+				} else if x.NameRange.Start.Byte < r.Start.Byte || x.NameRange.End.Byte > r.End.Byte {
+					*fails = append(*fails, fmt.Sprintf("call %v with its name at %v", r, x.NameRange))
 				}
 			case *hclsyntax.ObjectConsExpr:
 				for _, it := range x.Items {
@@ -240,7 +265,10 @@ func valueCandS(c lang.Candidate) S {
 }
 
 // valueCandsScenario: one case per (scenario, prefill) over the given offsets
-func valueCandsScenario(run *Run, sc *Scenario, offsets []int, max uint) {
+func valueCandsScenario(run *Run, sc *Scenario, offsets []int, max uint, prefills ...bool) {
+	if len(prefills) == 0 {
+		prefills = []bool{false, true}
+	}
 	ctx := context.Background()
 	f := sc.Main.Ctx.Files[sc.File]
 	if f == nil {
@@ -258,7 +286,9 @@ func valueCandsScenario(run *Run, sc *Scenario, offsets []int, max uint) {
 	empties := List{}
 	emptyExprRanges(body, &empties)
 	var wfFails []string
+	malformedParserRanges = 0
 	run.Res.Hypotheses["value_completion_tree_nodes_checked"] += wfcCheck(body, &wfFails)
+	run.Res.Distribution["value_completion_calls_with_parser_malformed_range"] += malformedParserRanges
 	for _, wf := range wfFails {
 		run.Res.HypothesisFailures = append(run.Res.HypothesisFailures, "parser tree outside the hypothesis of C06_value_candidates_reach_cursor: "+wf+" in "+fmt.Sprintf("%q", sc.Src))
 	}
@@ -267,7 +297,7 @@ func valueCandsScenario(run *Run, sc *Scenario, offsets []int, max uint) {
 	schS := sc.schemaS()
 	bodyS_ := bodyS(body)
 	seen := map[int]bool{}
-	for _, prefill := range []bool{false, true} {
+	for _, prefill := range prefills {
 		pairs := List{}
 		for k := range seen {
 			delete(seen, k)
@@ -308,16 +338,21 @@ func valueCandsScenario(run *Run, sc *Scenario, offsets []int, max uint) {
 		if len(pairs) == 0 {
 			continue
 		}
-		run.Case("valuecands", []S{Bool(prefill), Int(int(max)), Str(string(sc.Src)), toks, dec, bodyS_, schS, exprs, opens, empties, vals, pairs}, T("allok"))
+		run.Case("valuecands", []S{Bool(prefill), Int(int(max)), Str(string(sc.Src)), toks, dec, bodyS_, schS, exprs, opens, empties, vals, fsigsS(sc.Main.Ctx.Functions), parens, pairs}, T("allok"))
 		run.Count("valuecands_files")
 		run.Res.Distribution["valuecands_positions"] += len(pairs)
 	}
 }
 
 func valueCandsCases(run *Run) {
-	for _, sc := range valueFocusScenarios() {
+	for k, sc := range valueFocusScenarios() {
 		sc.W.Collect()
-		valueCandsScenario(run, sc, sc.Offsets, 100)
+		// (required-field prefilling alternates over the family in the quick tier)
+		if run.Thorough {
+			valueCandsScenario(run, sc, sc.Offsets, 100)
+		} else {
+			valueCandsScenario(run, sc, sc.Offsets, 100, k%2 == 1)
+		}
 	}
 	for v := 0; v < 4; v++ {
 		sc := missingValueKindsScenario(v)
